@@ -104,6 +104,16 @@ func TestC29(t *testing.T) {
 		C.Name = "state-synced"
 		C.EnableSnapshots(interval, 0)
 		defer C.CleanupSnapshots()
+		// read-only queries served by the still empty node while it waits for the snapshot (status,
+		// emission, versions, snapshot list) must leave no trace in what it restores
+		if sim.U(t, "queriesBeforeRestore", 2) == 0 {
+			_ = C.App.Info(abci.RequestInfo{})
+			_ = C.App.GetEmission()
+			_ = C.App.UpdateVersions()
+			_ = listSnapshots(C)
+			h.R.Steps = append(h.R.Steps, "queries on the empty node before the restore")
+			sim.S.Label("C29/queries-before-restore")
+		}
 		if msg := C.RestoreFrom(A, snap, A.LastAppHash); msg != "" {
 			fail("snapshot-restore-failed", "restoring the snapshot of height %d failed: %s", snap.Height, msg)
 		}
@@ -114,6 +124,9 @@ func TestC29(t *testing.T) {
 		info := C.App.Info(abci.RequestInfo{})
 		if uint64(info.LastBlockHeight) != A.LastHeight || !bytes.Equal(info.LastBlockAppHash, A.LastAppHash) {
 			fail("statesync-info-mismatch", "restored node reports height %d hash %x, producer %d %x", info.LastBlockHeight, info.LastBlockAppHash, A.LastHeight, A.LastAppHash)
+		}
+		if got, want := C.App.GetEmission().String(), A.App.GetEmission().String(); got != want {
+			fail("statesync-emission-mismatch", "right after the restore the state-synced node reports emission %s, the producer %s", got, want)
 		}
 		cs, err := C.App.GetStateForHeight(A.LastHeight)
 		if err != nil {
